@@ -146,6 +146,7 @@ pub proof fn lemma_rm_final(n: Nodes, root: ModuleNodeId, fm: FileMap, nt: NameT
         forall|x: ModuleNodeId| #[trigger] m.contains_key(x) ==> !m[x].file_ids@.contains(f),
 {
     lemma_rm_final_tree(n, root, f, m);
+    lemma_rm_final_rooted(n, root, f, m);
     lemma_rm_final_files(n, root, fm, f, m);
     let fm1 = fm.remove(f);
     assert forall|k: String, g: FileId| nt1.contains_key(k) && #[trigger] nt1[k]@.contains(g) implies fm1.contains_key(g) by {
@@ -210,4 +211,33 @@ pub proof fn names_no_file(o: NameTable, n: NameTable, f: FileId)
     ensures forall|k: String| #[trigger] n.contains_key(k) ==> !n[k]@.contains(f) && n[k]@.len() > 0,
 {
     assert forall|k: String| #[trigger] n.contains_key(k) implies !n[k]@.contains(f) && n[k]@.len() > 0 by { lemma_fids_not_gone(o[k]@, f); }
+}
+
+/// a kept node keeps its whole ancestor chain (a removed node has all its children removed)
+pub proof fn lemma_anc_swept(n: Nodes, m: Nodes, root: ModuleNodeId, f: FileId, x: ModuleNodeId, d: nat)
+    requires tree_wf(n, root), rm_inv(n, m, root, f, None, root), m.contains_key(x), anc(n, x, d) == Some(root),
+    ensures anc(m, x, d) == Some(root),
+    decreases d
+{
+    if d > 0 {
+        assert(n.contains_key(x));
+        let p = n[x].parent->0;
+        assert(x != root);
+        let name = choose|name: String| #[trigger] has_child(n, p, name) && child(n, p, name) == x;
+        assert(has_child(n, p, name));
+        assert(m.contains_key(p));
+        lemma_anc_swept(n, m, root, f, p, (d - 1) as nat);
+    }
+}
+
+#[verifier::spinoff_prover]
+pub proof fn lemma_rm_final_rooted(n: Nodes, root: ModuleNodeId, f: FileId, m: Nodes)
+    requires tree_wf(n, root), rooted(n, root), rm_inv(n, m, root, f, None, root),
+    ensures rooted(m, root),
+{
+    assert forall|x: ModuleNodeId| #[trigger] m.contains_key(x) implies exists|d: nat| #[trigger] anc(m, x, d) == Some(root) by {
+        assert(n.contains_key(x));
+        let d = choose|d: nat| #[trigger] anc(n, x, d) == Some(root);
+        lemma_anc_swept(n, m, root, f, x, d);
+    }
 }
